@@ -221,6 +221,15 @@ class CuckooDriver:
                 elif r:
                     self.model[fp] = 1
                 return
+        elif kind == "refused":
+            # a documented refusal the caller survives: an invalid fingerprint size raises ValueError and must change nothing
+            bad = [0, 5, 9, -1][op[1] % 4]
+            def assign():
+                o.fingerprint_size = bad
+            status, r = ctx.lib(self.noexc, assign, allow=(ValueError,))
+            ctx.check(self.noexc, status == "exc", f"fingerprint_size = {bad} was accepted")
+            self.feats.add("refused_setter")
+            ctx.op("refused", bad)
         elif kind == "addn":
             # the same key added many times in a row (counting filter: bin counts beyond one byte); plain filter: one add
             k = self.pool[op[1] % len(self.pool)]
@@ -363,6 +372,8 @@ def case_strategy(tier, classes=("cuckoo", "counting"), allow_reload=False, max_
         bs = draw(st.integers(1, 3))
         swaps = draw(st.integers(1, 6))
         ops = [st.tuples(st.just("add"), ki)] * 8 + [st.tuples(st.just("remove"), ki)] * 2
+        if draw(st.integers(0, 3)) == 0:
+            ops.append(st.tuples(st.just("refused"), st.integers(0, 3)))
         if cls == "counting" and draw(st.integers(0, 3)) == 0:
             ops.append(st.tuples(st.just("addn"), ki, st.integers(0, 399)))
         if draw(st.integers(0, 2)) == 0:
